@@ -4,27 +4,27 @@ import PigeonVerif.Spec.SpecProtocol
 import PigeonVerif.Model.WfgProtocol
 open PV PV.Protocol
 
-partial def loop (spec wfg : Bool) (h : IO.FS.Stream) (out : IO.FS.Stream) (tab : Array CaseRange) : IO Unit := do
+partial def loop (spec wfg lrwf : Bool) (h : IO.FS.Stream) (out : IO.FS.Stream) (tab : Array CaseRange) : IO Unit := do
   let line ← h.getLine
   if line.isEmpty then return ()
   let line := line.trimAsciiEnd.toString
-  if line.isEmpty then loop spec wfg h out tab
+  if line.isEmpty then loop spec wfg lrwf h out tab
   else if line.startsWith "unicode " then
     match parseLine caseRanges line with
-    | .ok t => loop spec wfg h out t.toArray
-    | .error e => out.putStrLn s!"res 0 error header: {e}"; loop spec wfg h out tab
+    | .ok t => loop spec wfg lrwf h out t.toArray
+    | .error e => out.putStrLn s!"res 0 error header: {e}"; loop spec wfg lrwf h out tab
   else if line.startsWith "mid " then
     match parseLine MidProtocol.midCase line with
     | .ok c => out.putStrLn (MidProtocol.runMid c)
     | .error e => out.putStrLn s!"midres 0 error {e}"
-    loop spec wfg h out tab
+    loop spec wfg lrwf h out tab
   else
     match parseLine case_ line with
-    | .ok c => out.putStrLn (if wfg then WfgProtocol.runWfg c (toLower tab) else if spec then SpecProtocol.runSpec c (toLower tab) else runCase c (toLower tab))
+    | .ok c => out.putStrLn (if lrwf then WfgProtocol.runLrwf c (toLower tab) else if wfg then WfgProtocol.runWfg c (toLower tab) else if spec then SpecProtocol.runSpec c (toLower tab) else runCase c (toLower tab))
     | .error e => out.putStrLn s!"res 0 error {e}"
-    loop spec wfg h out tab
+    loop spec wfg lrwf h out tab
 
 def main (args : List String) : IO Unit := do
   let stdin ← IO.getStdin
   let stdout ← IO.getStdout
-  loop (args.contains "--spec") (args.contains "--wfg") stdin stdout #[]
+  loop (args.contains "--spec") (args.contains "--wfg") (args.contains "--lrwf") stdin stdout #[]
